@@ -143,7 +143,9 @@ Applicable(pw, w) == CASE w \in {"empty", "shorter", "char", "nulsuffix"} -> pw 
                        [] w = "lowbyte" -> pw \in {"utf8", "bmp_edge"}      \* every character replaced by its low byte
                        [] w = "nulpad" -> pw \in {"utf8", "bmp_edge"}       \* as many U+0000 appended as the UTF-8 form has bytes beyond one per character
                        [] OTHER -> TRUE
-UseP12 == \E w \in {"right"} \cup WrongPwd, api \in {"DecodeAll", "Decode", "ToPEM"} :
+\* "StdVerify": a reader written from RFC 7292 alone (password as BMPString per B.1, MAC key per B.2, HMAC-SHA-1 over the
+\* authenticated safe) - "that password" is the password as every implementation of the format understands it
+UseP12 == \E w \in {"right"} \cup WrongPwd, api \in {"DecodeAll", "Decode", "ToPEM", "StdVerify"} :
             /\ (w # "right" => Applicable(obj.pw, w))
             /\ (api = "Decode" => (obj.keykind = "rsa" /\ obj.certs = 1))      \* Decode: one certificate, parsed by crypto/x509
             /\ use' = [pwd |-> w, api |-> api]
